@@ -89,6 +89,21 @@ Theorem T10a_conflicting_types_refuted :
 Proof. exact conflicting_types_refuted. Qed.
 Print Assumptions T10a_conflicting_types_refuted.
 
+(* The numbering is a property of ONE preparation: identifiers of another formula sharing the variable, applied to this
+   formula's table, read another variable's series (or fall outside the table).  Histories of models / evaluations
+   sharing objects are exercised by stream history. *)
+Theorem T10a_stale_identifiers_refuted :
+  exists (f1 f2 : expr) (user : gdict Z unit) t1 tb1 t2 tb2,
+    prepare_draws Z unit [] user [f1] [] 1 1 tt = Some (t1, Ok (tb1, tt)) /\
+    prepare_draws Z unit [] user [f2] [] 1 1 tt = Some (t2, Ok (tb2, tt)) /\
+    draw_id t1 "xi" = Some 1%Z /\ draw_id t2 "xi" = Some 0%Z /\
+    engine_draw Z t1 tb1 0 0 "xi" = Some 100%Z /\
+    engine_draw Z t2 tb2 0 0 "xi" = Some 100%Z /\
+    engine_draw Z t2 tb1 0 0 "xi" = Some 1%Z /\
+    engine_draw Z t1 tb2 0 0 "xi" = None.
+Proof. exact stale_identifiers_refuted. Qed.
+Print Assumptions T10a_stale_identifiers_refuted.
+
 (* np.array(list_of_draws) then np.moveaxis(., 0, -1): table[o][r][k] = series_k[o][r], any K, N, R *)
 Theorem T10a_stack_moveaxis :
   forall (A : Type) N R (ms : list (matrix A)) o r k,
